@@ -10,7 +10,15 @@ Implementation-level oracles (textbook formulas over exact Fractions, written fr
    have been overwritten in place; operands must not be mutated by the call;
  * F "identity constructors": every constructor form (pp.identity_G, G_type.identity, identity_like,
    identity_, algebra forms), sizes, dtypes: raw data, neutrality for @ (both sides) / Act / Act4 / matrix /
-   Inv; then an in-place history on the returned element, then the constructor again."""
+   Inv; then an in-place history on the returned element, then the constructor again;
+ * G "restored elements": an element that went through copy.deepcopy / pickle / torch.save+load / copy.copy /
+   pp.Parameter / a module checkpoint (state_dict round trip, deepcopy of the module) is the same group element:
+   such twins are used as either (or both) operands of every operation of E and F, and histories (exact:
+   @ on both sides, Inv, zero increments, judged after every step against the textbook formulas over Fractions;
+   floating: add_ / Retr / + / @ / Inv with generic increments, judged for validity, the two-sided inverse and
+   agreement with the same history on the never-copied element) are run on elements that are restored again and
+   again in between."""
+import math
 from ..common import *
 from ..lie import *
 
@@ -135,6 +143,11 @@ def run(ctx):
                 cum = float(X.tensor()[-1])
             ops.append((o, y))
             outs.append(fr(X.tensor()))
+            if _dyadic_bits(X.tensor().tolist()) > 40:
+                # the exact route needs every intermediate of the NEXT step to fit into the 53-bit significand (grid of the
+                # translation x its magnitude grows over long Sim3 / SE3 histories): this step was still exact, stop here
+                ctx.notes.append('exact history %d (%s) stopped after %d of %d steps: significand budget' % (h, g, len(ops), L))
+                break
         ctx.case(('hist', g, h, L), branch='history-' + g)
         ctx.traces += 1
         hmeta.append(dict(g=g, x0=x0, ops=ops))
@@ -213,17 +226,25 @@ def run(ctx):
     # ---------------------------------------------------------------- E: call protocol (shapes, layouts, forms, reuse)
     for c in protocol_cases(rng, ctx.scale(500, 4000)):
         f = protocol_check(pp, torch, c)
-        ctx.case(('protocol', c['g'], c['op'], c['form'], tuple(c['xs']), tuple(c['ps'] or ()), c['layout'], c['dtype']),
-                 branch='protocol-%s-%s' % (c['op'], c['layout']))
+        tw = (c.get('origin_x', 'fresh'), c.get('origin_p', 'fresh'))
+        ctx.case(('protocol', c['g'], c['op'], c['form'], tuple(c['xs']), tuple(c['ps'] or ()), c['layout'], c['dtype']) + (tw if tw != ('fresh', 'fresh') else ()),
+                 branch='protocol-%s-%s' % (c['op'], c['layout'] if tw == ('fresh', 'fresh') else 'restored'))
         if f:
             ctx.violation('%s:%s:%s' % (f[0], c['g'], c['op']), f[1], dict(c, description=f[1][:600]))
     # ---------------------------------------------------------------- F: identity constructors, state between calls
     for c in identity_cases(rng, ctx.scale(1, 3)):
         f = identity_check(pp, torch, c)
-        ctx.case(('identity-form', c['g'], c['form'], tuple(c['size']), c['dtype']), nontrivial=False,
+        ctx.case(('identity-form', c['g'], c['form'], tuple(c['size']), c['dtype'], c.get('origin', 'fresh')), nontrivial=False,
                  branch='identity-form-' + c['form'])
         if f:
             ctx.violation('identity-constructor:%s' % c['g'], f, dict(c, description=f[:600]))
+    # ---------------------------------------------------------------- G: histories on restored (copied / unpickled / loaded) elements
+    for c in twin_history_cases(rng, ctx.scale(1, 4)):
+        f = twin_history_check(pp, torch, c)
+        ctx.case(('restored-history', c['g'], c['dtype'], c['exact'], tuple(st[3] for st in c['steps'])), branch='restored-history-' + c['g'])
+        ctx.traces += 1
+        if f:
+            ctx.violation('%s:%s' % (f[0], c['g']), f[1], dict(c, description=f[1][:600]))
     # ---------------------------------------------------------------- D: search
     if ctx.mismatches:
         for m in ctx.mismatches:
@@ -260,11 +281,82 @@ SHAPES = [(), (1,), (2,), (3,), (4,), (5,), (6,), (7,), (8,), (1, 3), (3, 1), (2
           (2, 2), (1, 4), (4, 1), (2, 4), (1, 1, 3), (2, 1, 3), (3, 1, 1), (2, 3, 4), (3, 1, 3), (0,), (3, 0), (0, 3)]
 
 
+# Where an operand comes from.  The property quantifies over all ELEMENTS of a group type: an element that was
+# copied, pickled, saved and loaded, wrapped as a Parameter or restored from a module checkpoint is the same element.
+ORIGINS = ['deepcopy', 'pickle', 'torch.save+load', 'copy.copy', 'Parameter', 'deepcopy(Parameter)', 'module-checkpoint',
+           'deepcopy(module)']
+PLAIN_ORIGINS = ORIGINS[:4]      # twins that are plain LieTensors (no autograd leaf): usable with in-place updates
+
+
+def _dyadic_bits(vals):
+    """number of significand bits a common dyadic grid for all components needs: log2(max |v| / finest grid)"""
+    den, mag = 1, 0.0
+    for v in vals:
+        if v != 0.0:
+            den = max(den, float(v).as_integer_ratio()[1])
+            mag = max(mag, abs(v))
+    return (math.frexp(mag * den)[1]) if mag else 0
+
+
 def _prod(sh):
     n = 1
     for v in sh:
         n *= v
     return n
+
+
+def _twin(pp, torch, X, origin):
+    """the element X after a round trip through `origin` (a LieTensor with its own ltype object / storage)"""
+    import copy, pickle, io
+    if origin == 'fresh':
+        return X
+    if X.numel() == 0 and origin in ('deepcopy', 'deepcopy(module)'):
+        origin = 'pickle'    # torch's default __deepcopy__ refuses empty LieTensors; not an operation of this property
+    if origin == 'deepcopy':
+        return copy.deepcopy(X)
+    if origin == 'pickle':
+        return pickle.loads(pickle.dumps(X))
+    if origin == 'torch.save+load':
+        b = io.BytesIO()
+        torch.save(X, b)
+        b.seek(0)
+        return torch.load(b, weights_only=False)
+    if origin == 'copy.copy':
+        return copy.copy(X)
+    if origin == 'Parameter':
+        return pp.Parameter(X)
+    if origin == 'deepcopy(Parameter)':
+        return copy.deepcopy(pp.Parameter(X))
+
+    class Holder(torch.nn.Module):
+        def __init__(self, Z):
+            super().__init__()
+            self.pose = pp.Parameter(Z)
+    m = Holder(X.clone())
+    if origin == 'deepcopy(module)':
+        return copy.deepcopy(m).pose
+    assert origin == 'module-checkpoint', origin
+    b = io.BytesIO()
+    torch.save(m.state_dict(), b)
+    b.seek(0)
+    m2 = Holder(pp.LieTensor(torch.zeros_like(X.tensor()).contiguous(), ltype=X.ltype))
+    m2.load_state_dict(torch.load(b, weights_only=False))
+    return m2.pose
+
+
+def _is_group(X, pp, g):
+    """X is a LieTensor of group type g (the class of the type object: a restored element carries its own copy of it)"""
+    return isinstance(X, pp.LieTensor) and type(X.ltype).__name__ == g + 'Type'
+
+
+def _write(torch, view, v):
+    """view[...] = v in place, also for stride-0 (expanded) views whose rows are all equal"""
+    with torch.no_grad():
+        if view.numel() and 0 in view.stride():
+            idx = tuple(slice(0, 1) if st == 0 else slice(None) for st in view.stride())
+            view[idx].copy_(v[idx])
+        else:
+            view.copy_(v)
 
 
 def _ident_row(g):
@@ -315,7 +407,7 @@ def _operand_shapes(rng, out):
 def protocol_cases(rng, nrandom):
     cases = []
 
-    def mk(g, op, xs, ps, layout, layout_p, dtype, form):
+    def mk(g, op, xs, ps, layout, layout_p, dtype, form, origin_x='fresh', origin_p='fresh'):
         if _prod(xs) == 0 and layout == 'expanded':
             layout = 'contiguous'
         if ps is not None and _prod(ps) == 0 and layout_p == 'expanded':
@@ -326,6 +418,8 @@ def protocol_cases(rng, nrandom):
                                P=_rows(rng, g, op, 'P', _prod(ps), layout_p) if ps is not None else None))
         cases.append(dict(kind='protocol', g=g, op=op, form=form, xs=list(xs), ps=list(ps) if ps is not None else None,
                           layout=layout, layout_p=layout_p, dtype=dtype, rounds=rounds))
+        if (origin_x, origin_p) != ('fresh', 'fresh'):
+            cases[-1].update(origin_x=origin_x, origin_p=origin_p if op == 'Mul' else 'fresh')
     # directed: every (group, op) on batches of every total size 0..8, and one element against k of the other operand
     k = 0
     for g in GROUPS:
@@ -353,8 +447,31 @@ def protocol_cases(rng, nrandom):
             xs, ps = _operand_shapes(rng, out)
         else:
             xs, ps = out, None
+        # every 5th random case: one or both operands are restored copies (chosen without consuming `rng`)
+        ox = oy = 'fresh'
+        if i % 5 == 4:
+            j = i // 5
+            ox = ORIGINS[j % len(ORIGINS)] if (op != 'Mul' or j % 3 != 1) else 'fresh'
+            oy = (ORIGINS + ['ltype-of-x'])[(j // 3) % (len(ORIGINS) + 1)] if (op == 'Mul' and j % 3 != 0) else 'fresh'
         mk(g, op, xs, ps, rng.choice(LAYOUTS), rng.choice(LAYOUTS), rng.choice(['float64', 'float64', 'float32']),
-           rng.choice(FORMS[op]))
+           rng.choice(FORMS[op]), ox, oy)
+    # directed: restored elements (deepcopy / pickle / save+load / copy / Parameter / module checkpoint) as the first, the
+    # second and both operands of every operation in every call form
+    shapes = [(), (1,), (2,), (3,), (2, 2), (4,)]
+    k = 0
+    for g in GROUPS:
+        for op in FORMS:
+            for o in ORIGINS:
+                sides = [(o, 'fresh')]
+                if op == 'Mul':
+                    sides += [('fresh', o), (o, ORIGINS[(ORIGINS.index(o) + 1 + k % 3) % len(ORIGINS)]), (o, o), (o, 'ltype-of-x')]
+                for (ox, oy) in sides:
+                    k += 1
+                    sh = shapes[k % len(shapes)]
+                    xs, ps = (sh, sh) if k % 4 else ((sh, ()) if k % 8 else ((), sh))
+                    mk(g, op, xs, ps if op in BINARY else None, LAYOUTS[k % 5] if k % 3 == 0 else 'contiguous',
+                       LAYOUTS[(k + 1) % 5] if k % 3 == 1 else 'contiguous', 'float64' if k % 3 else 'float32',
+                       FORMS[op][k % len(FORMS[op])], ox, oy)
     return cases
 
 
@@ -433,6 +550,10 @@ def protocol_check(pp, torch, c):
     where = '%s %s via %s, %s, X batch shape %s (%s)%s' % (g, op, form, c['dtype'], xs, c['layout'],
                                                       '' if ps is None else ', second operand batch shape %s (%s)' % (ps, c['layout_p']))
     ltype = getattr(pp, g + '_type')
+    ox, oy = c.get('origin_x', 'fresh'), c.get('origin_p', 'fresh')
+    if (ox, oy) != ('fresh', 'fresh'):
+        where += '; X %s, second operand %s' % tuple('never copied' if o == 'fresh' else 'built with the type object of the restored X'
+                                                      if o == 'ltype-of-x' else 'restored via ' + o for o in (ox, oy))
     Xv = Xo = Pv = Po = None
     for ri, rd in enumerate(c['rounds']):
         if ri == 0:
@@ -443,9 +564,27 @@ def protocol_check(pp, torch, c):
                 P = pp.LieTensor(Pv, ltype=ltype) if op == 'Mul' else Pv
             else:
                 P = None
+            try:
+                if ox != 'fresh':
+                    X = _twin(pp, torch, X, ox)
+                    Xv = Xo = X.tensor()      # the restored element owns its data
+                if oy != 'fresh' and op == 'Mul':
+                    P = pp.LieTensor(Pv, ltype=X.ltype) if oy == 'ltype-of-x' else _twin(pp, torch, P, oy)
+                    if oy != 'ltype-of-x':
+                        Pv = Po = P.tensor()
+            except Exception as e:
+                return ('raises', '%s: restoring the operand raises %s' % (where, repr(e)[:200]))
+            if not _is_group(X, pp, g) or tuple(X.shape) != xs + (dX,) or (op == 'Mul' and not _is_group(P, pp, g)):
+                return ('result-type', '%s: the restored operand is %s shape %s, not a %s element of shape %s'
+                        % (where, type(X).__name__, tuple(X.shape), g, xs + (dX,)))
         else:
-            _overwrite(torch, Xv, Xo, rd['X'], xs, dX, dtype, c['layout'])
-            if ps is not None:
+            if ox != 'fresh':
+                _write(torch, Xv, torch.tensor(rd['X'], dtype=dtype).reshape(xs + (dX,)))
+            else:
+                _overwrite(torch, Xv, Xo, rd['X'], xs, dX, dtype, c['layout'])
+            if ps is not None and oy not in ('fresh', 'ltype-of-x') and op == 'Mul':
+                _write(torch, Pv, torch.tensor(rd['P'], dtype=dtype).reshape(ps + (dP,)))
+            elif ps is not None:
                 _overwrite(torch, Pv, Po, rd['P'], ps, dP, dtype, c['layout_p'])
         # expected values, item by item (textbook formulas over Fractions)
         n = _prod(oshape)
@@ -462,7 +601,7 @@ def protocol_check(pp, torch, c):
             except Exception as e:
                 return ('raises', '%s: %s raises %s' % (where, tag, repr(e)[:200]))
             is_lt = isinstance(out, pp.LieTensor)
-            if (otype is not None) != is_lt or (is_lt and out.ltype != getattr(pp, otype + '_type')):
+            if (otype is not None) != is_lt or (is_lt and not _is_group(out, pp, otype)):
                 return ('result-type', '%s: %s returns %s, expected %s' % (where, tag, type(out).__name__ + (':' + str(out.ltype) if is_lt else ''), otype or 'Tensor'))
             raw = out.tensor() if is_lt else out
             if tuple(raw.shape) != oshape + odims or raw.dtype != dtype:
@@ -480,7 +619,8 @@ def protocol_check(pp, torch, c):
             if ri == 0 and attempt == 0 and op in ('Mul', 'Inv', 'Act', 'Act4', 'matrix') and n:
                 # the caller owns the result: updating it in place must not affect the operands or later results
                 try:
-                    raw.add_(1.0)
+                    with torch.no_grad():
+                        raw.add_(1.0)
                 except RuntimeError:
                     pass
                 if not (torch.equal(Xo, snapX) and (Po is None or torch.equal(Po, snapP))):
@@ -514,6 +654,9 @@ def identity_cases(rng, reps):
                                           p=[[dy(rng, 5, 2.0) for _ in range(3)] for _ in range(n)],
                                           w=[rng.choice([0.0, 1.0, dy(rng, 3, 2.0)]) for _ in range(n)],
                                           a=[[rng.uniform(-0.5, 0.5) for _ in range(ADIM[g])] for _ in range(n)]))
+                        if k % 3 == 0:
+                            # the other factor Y and the template of identity_like / identity_() are restored copies
+                            cases[-1]['origin'] = PLAIN_ORIGINS[(k // 3) % len(PLAIN_ORIGINS)]
     return cases
 
 
@@ -534,6 +677,13 @@ def identity_check(pp, torch, c):
     T = pp.LieTensor(torch.tensor(c['T'], dtype=torch.float64 if form == 'pp.identity_like' and eff != torch.float64 else
                                   torch.float32 if form == 'pp.identity_like' else eff).reshape(size + (d,)), ltype=ltype)
 
+    origin = c.get('origin', 'fresh')
+    if origin != 'fresh':
+        try:
+            Y, T = _twin(pp, torch, Y, origin), _twin(pp, torch, T, origin)
+        except Exception as e:
+            return '%s %s: restoring an element via %s raises %s' % (g, form, origin, repr(e)[:200])
+
     def construct():
         if form == 'pp.identity_G':
             return getattr(pp, 'identity_' + g)(*size, **kw)
@@ -549,6 +699,8 @@ def identity_check(pp, torch, c):
     eye = torch.eye(3 if g == 'SO3' else 4, dtype=eff)
     where = '%s%s%s' % (form.replace('_G', '_' + g).replace('G_type', g + '_type').replace('_g', '_' + ALG[g]),
                         tuple(size), '' if dtype is None else ' dtype=%s' % c['dtype'])
+    if origin != 'fresh':
+        where += ' (Y and the template restored via %s)' % origin
     for when in ('first call', 'call after an in-place history (%s) on the previously returned element' % ', '.join(c['hist'])):
         try:
             E0 = construct()
@@ -558,7 +710,7 @@ def identity_check(pp, torch, c):
                         or E0.dtype != eff or bool((E0.tensor() != 0).any()):
                     return '%s, %s: not the zero element of the algebra: %s' % (where, when, E0.tensor().tolist())
                 E = E0.Exp()
-            if not isinstance(E, pp.LieTensor) or E.ltype != ltype or tuple(E.shape) != size + (d,) or E.dtype != eff:
+            if not _is_group(E, pp, g) or tuple(E.shape) != size + (d,) or E.dtype != eff:
                 return '%s, %s: returns %s shape %s dtype %s' % (where, when, type(E).__name__, tuple(E.shape), E.dtype)
             checks = [('raw data is not the identity element %s' % _ident_row(g), E.tensor(), I),
                       ('E @ Y != Y for Y=%s' % c['Y'], (E @ Y).tensor(), Y.tensor()),
@@ -584,6 +736,145 @@ def identity_check(pp, torch, c):
                     E0.tensor().mul_(-3.0)
         except Exception as e:
             return '%s, %s: raises %s' % (where, when, repr(e)[:200])
+    return None
+
+
+# ======================================================================= G: histories on restored elements
+# One element is updated by @ (both sides, both operators), Inv, the in-place forms and retractions while it is - again and
+# again - replaced by a restored copy of itself (deepcopy, pickle, save+load, Parameter, module checkpoint); the other
+# factors / increments are restored copies too.  exact=True: Hurwitz-unit / dyadic data and zero increments (Exp(0) is
+# the identity, so a retraction by 0 leaves the element as it is): no rounding, every step must EQUAL the textbook
+# composition over Fractions.  exact=False: generic increments; after every step the element must be a valid element,
+# agree (up to round-off) with the same history on a never-copied element, and Inv must be a two-sided inverse.
+EXACT_OPS = ['L', 'R', 'R*', 'Inv', 'L_', 'R_', 'add_', 'Retr', '+']
+FLOAT_OPS = ['L', 'R', 'Inv', 'add_', 'add_', 'Retr', '+', 'R_', 'add_']
+
+
+def twin_history_cases(rng, reps):
+    cases = []
+    k = 0
+    for rep in range(reps):
+        for g in GROUPS:
+            for o in ORIGINS:
+                for exact in (True, False):
+                    k += 1
+                    nrow = 1 if k % 2 else 2
+                    x0 = [unit_elt(rng, g) for _ in range(nrow)]
+                    cum = [x[-1] if g in ('RxSO3', 'Sim3') else 1.0 for x in x0]
+                    steps = []
+                    for j in range(10 if exact else 12):
+                        opn = rng.choice(EXACT_OPS if exact else FLOAT_OPS)
+                        ys = [unit_elt(rng, g) for _ in range(nrow)]
+                        if g in ('RxSO3', 'Sim3'):
+                            for r in range(nrow):     # keep the accumulated scale in [1/8, 8]: no rounding in float32 either
+                                if opn == 'Inv':
+                                    cum[r] = 1.0 / cum[r]
+                                elif opn[0] in 'LR':
+                                    if not (0.125 <= cum[r] * ys[r][-1] <= 8.0):
+                                        ys[r][-1] = 1.0
+                                    cum[r] *= ys[r][-1]
+                        mag = 0.0 if exact else rng.choice([1.0, 1.0, 1.0, 1e-3, 1e-8, 0.0])
+                        a = [[rng.uniform(-0.3, 0.3) * mag for _ in range(ADIM[g])] for _ in range(nrow)]
+                        ox = o if j % 4 == 0 else ORIGINS[(k + j) % len(ORIGINS)] if j % 4 == 2 else 'fresh'
+                        oy = [o, 'fresh', 'ltype-of-x', ORIGINS[(k + j) % len(ORIGINS)]][(j + k) % 4]
+                        steps.append([opn, ys, a, ox, oy])
+                    cases.append(dict(kind='restored-history', g=g, dtype='float32' if k % 3 == 0 else 'float64', exact=exact,
+                                      scalar=bool(nrow == 1 and k % 4 == 1), x0=x0, steps=steps))
+    return cases
+
+
+def twin_history_check(pp, torch, c):
+    """-> None or (key, description)"""
+    g, exact = c['g'], c['exact']
+    dtype = getattr(torch, c['dtype'])
+    eps = torch.finfo(dtype).eps
+    d = GDIM[g]
+    gtype, atype = getattr(pp, g + '_type'), getattr(pp, ALG[g] + '_type')
+    sh = () if c['scalar'] else (len(c['x0']),)
+    mkt = lambda rows, w: torch.tensor(rows, dtype=dtype).reshape(sh + (w,))
+    Fr = lambda l: [Fraction(v) for v in l]
+    X = pp.LieTensor(mkt(c['x0'], d), ltype=gtype)        # the element that is restored again and again
+    F = pp.LieTensor(mkt(c['x0'], d), ltype=gtype)        # float mode: the same history without any copy
+    ref = [Fr(x) for x in c['x0']]                        # exact mode: textbook composition
+    done = []
+
+    def apply(Z, opn, Y, A, a_raw):
+        with torch.no_grad():
+            if opn == 'L':
+                return Y @ Z
+            if opn == 'R':
+                return Z @ Y
+            if opn == 'R*':
+                return Z * Y
+            if opn == 'Inv':
+                return Z.Inv()
+            if opn == 'L_':
+                return Z.copy_(Y @ Z)
+            if opn == 'R_':
+                return Z.copy_(Z @ Y)
+            if opn == 'add_':
+                Z.add_(a_raw)
+                return Z
+            if opn == 'Retr':
+                return Z.Retr(A)
+            return Z + A
+
+    for j, (opn, ys, a, ox, oy) in enumerate(c['steps']):
+        done.append('%s%s%s' % (opn, '' if ox == 'fresh' else '[X restored via %s]' % ox,
+                                '' if oy == 'fresh' or opn == 'Inv' else '[other operand: %s]' % oy))
+        where = ('%s %s, batch shape %s, history on one element starting from %s: step %d of %s' %
+                 (g, c['dtype'], sh, c['x0'], j + 1, ' -> '.join(done)))
+        try:
+            if ox != 'fresh':
+                X = _twin(pp, torch, X.detach(), ox)
+            Yf = pp.LieTensor(mkt(ys, d), ltype=gtype)
+            Af = pp.LieTensor(mkt(a, ADIM[g]), ltype=atype)
+            Y = pp.LieTensor(mkt(ys, d), ltype=X.ltype) if oy == 'ltype-of-x' else _twin(pp, torch, Yf, oy)
+            A = Af if oy == 'ltype-of-x' else _twin(pp, torch, Af, oy)
+            X = apply(X, opn, Y, A, mkt(a, ADIM[g]))
+            if not exact:
+                F = apply(F, opn, Yf, Af, mkt(a, ADIM[g]))
+        except Exception as e:
+            return ('restored-history-raises', '%s raises %s' % (where, repr(e)[:200]))
+        if not _is_group(X, pp, g) or tuple(X.shape) != sh + (d,) or X.dtype != dtype:
+            return ('restored-history-type', '%s gives %s shape %s dtype %s, expected a %s element of shape %s' %
+                    (where, type(X).__name__ + (':' + type(X.ltype).__name__ if hasattr(X, 'ltype') else ''), tuple(X.shape), X.dtype, g, sh + (d,)))
+        raw = X.tensor().detach().to(torch.float64).reshape(-1, d)
+        if exact:
+            for r in range(len(ref)):
+                if opn in ('L', 'L_'):
+                    ref[r] = ref_mul(g, Fr(ys[r]), ref[r])
+                elif opn in ('R', 'R*', 'R_'):
+                    ref[r] = ref_mul(g, ref[r], Fr(ys[r]))
+                elif opn == 'Inv':
+                    ref[r] = ref_inv(g, ref[r])
+                if fr(raw[r]) != [Fraction(v) for v in ref[r]]:
+                    return ('restored-history', '%s, item %d: the element is %s, the group law (textbook composition; a zero increment is the '
+                            'identity) gives %s' % (where, r, raw[r].tolist(), [float(v) for v in ref[r]]))
+            continue
+        q = X.rotation().tensor().detach().to(torch.float64).reshape(-1, 4)
+        dev = float((q.norm(dim=-1) - 1.0).abs().max())
+        sc = float(X.scale().min()) if g in ('RxSO3', 'Sim3') else 1.0
+        if not bool(torch.isfinite(raw).all()) or not dev <= 16 * (j + 8) * eps or not sc > 0:
+            return ('restored-history-invalid', '%s: not a valid group element any more: | |q|-1 | = %g, scale = %g, data %s' % (where, dev, sc, raw.tolist()))
+        fraw = F.tensor().detach().to(torch.float64).reshape(-1, d)
+        if not float((raw - fraw).abs().max()) <= 64 * eps * (1.0 + float(fraw.abs().max())):
+            return ('restored-history-differs', '%s: the restored element is %s, the same operations on the never-copied element give %s' %
+                    (where, raw.tolist(), fraw.tolist()))
+    if not exact:
+        try:
+            Xi = X.Inv()
+            both = [('X @ Inv(X)', (X @ Xi)), ('Inv(X) @ X', (Xi @ X))]
+        except Exception as e:
+            return ('restored-history-raises', '%s; then Inv / @ on the result raises %s' % (where, repr(e)[:200]))
+        I = torch.tensor(_ident_row(g), dtype=torch.float64)
+        tol = 256 * eps * (1.0 + float(X.tensor().detach().abs().max())) * (1.0 + float(Xi.tensor().detach().abs().max()))
+        for name, got in both:
+            if not _is_group(got, pp, g):
+                return ('restored-history-type', '%s; then %s is not a %s element' % (where, name, g))
+            gr = got.tensor().detach().to(torch.float64).reshape(-1, d)
+            if not float((gr - I).abs().max()) <= tol:
+                return ('restored-history-inverse', '%s; then %s = %s is not the identity (tolerance %g) for X = %s' % (where, name, gr.tolist(), tol, X.tensor().tolist()))
     return None
 
 
@@ -694,6 +985,9 @@ def replay(ctx, c):
         return f[1] if f else None
     if c.get('kind') == 'identity':
         return identity_check(pp, torch, c)
+    if c.get('kind') == 'restored-history':
+        f = twin_history_check(pp, torch, c)
+        return f[1] if f else None
     if c.get('kind') == 'float-history':
         import random
         ctx2 = Ctx('C03', 'quick', c['seed'])
